@@ -6,13 +6,16 @@ A zone is what pandas reads from a pytz zone: the offset in force before the fir
 transition and a list of `(utc instant, new utc offset)` transitions, sorted by instant.
 `resolveLocal` implements `tz_localize(nonexistent="shift_forward", ambiguous=True)`;
 `convertToUtc` is `ExplainableHourlyQuantities.convert_to_utc`: localize → convert →
-fuse duplicates by summing (→ sort **only** in the duplicate branch, as the code does).
+fuse duplicates by summing → sort (always, since the `fix:` commit for finding D7).
 -/
 namespace Efp
 
 structure Zone where
   initOffset : Int
   transitions : List (Int × Int)     -- (utc instant, offset in force from that instant on)
+  /-- the zone's very first offset (LMT) is east of Greenwich: pandas uses its sign when it looks
+      up the offset to apply to a shifted nonexistent time -/
+  eastFirst : Bool := true
 deriving Repr, DecidableEq, Inhabited
 
 namespace Zone
@@ -33,26 +36,39 @@ def candidates (z : Zone) (l : Int) : List Int :=
     let okE := match en with | none => true | some e => decide (u < e)
     if okS && okE then some u else none)
 
+/-- offset in force at position `i` of the full offset table (entry 0 = initial offset);
+positions past the end read the last entry -/
+def deltaAt (z : Zone) (i : Nat) : Int :=
+  if i = 0 then z.initOffset
+  else match z.transitions[i - 1]? with
+    | some p => p.2
+    | none => match z.transitions.getLast? with
+      | some p => p.2
+      | none => z.initOffset
+
 /-- `tz_localize(nonexistent="shift_forward", ambiguous=True)`: an existing wall-clock time maps
-to its (first, for a repeated hour) UTC instant; a skipped one maps to the transition instant
-that skipped it. -/
+to its (first, for a repeated hour) UTC instant.  A skipped one is handled as pandas 2.2 does in
+`tz_localize_to_utc`: the wall-clock time is moved to the next whole hour `l'`; pandas then bisects
+the table of **UTC** transition instants with the **local** value `l'` (`c` = number of table
+entries ≤ `l'`), and subtracts the offset at position `c-1` when that offset is ≥ 0 or the zone's
+first offset is positive, else the offset at position `c`.  For the usual one-hour gaps the result
+is the transition instant; for 15/30/45-minute gaps it is the next whole local hour; for zones
+that changed hemisphere (Apia, Kwajalein, Rarotonga) it can be read with the old offset.
+Established against pandas on every gap of every pytz zone and re-checked by the K-tz suite. -/
 def resolveLocal (z : Zone) (l : Int) : Int :=
   match z.candidates l with
   | u :: _ => u
   | [] =>
-    -- nonexistent: the transition `t` (old offset `o₀` → new `o₁`) with  l - o₀ ≥ t  and  l - o₁ < t
-    let rec go : Int → List (Int × Int) → Int
-      | off, [] => l - off
-      | off, (t, o) :: rest => if l - off ≥ t && l - o < t then t else go o rest
-    go z.initOffset z.transitions
+    let l' := l + (3600 - l % 3600)
+    let c := 1 + (z.transitions.filter (fun p => decide (p.1 ≤ l'))).length
+    let idx := if z.deltaAt (c - 1) ≥ 0 then c - 1 else if z.eastFirst then c - 1 else c
+    l' - z.deltaAt idx
 
 end Zone
 
-/-- `convert_to_utc`: map keys through `resolve`; if the result has duplicate keys, fuse them by
-summing and sort; otherwise leave the order as produced. -/
+/-- `convert_to_utc`: map keys through `resolve`, fuse duplicate keys by summing, sort by key. -/
 def convertToUtcWith (resolve : Int → Int) (s : Series) : Series :=
-  let m : Series := s.map (fun p => (resolve p.1, p.2))
-  if Series.hasDupKeys (Series.keys m) then Series.dedupSum m else m
+  Series.dedupSum (s.map (fun p => (resolve p.1, p.2)))
 
 def convertToUtc (z : Zone) (s : Series) : Series := convertToUtcWith z.resolveLocal s
 
